@@ -36,6 +36,17 @@ RESTART_OK = {
 }
 
 
+
+def _flag_clear(c, truth):
+    """the variable a branch fact says is zero: `!x` / `x == 0` true, `x` / `x != 0` false"""
+    e, t = normalize_cond(c, truth)
+    e = strip(e)
+    if e.get("k") == "Ref" and t is False:
+        return e
+    if e.get("k") == "Bin" and e.get("op") in ("==", "!=") and const_val(e["R"]) == 0 and strip(e["L"]).get("k") == "Ref" and (t is True) == (e["op"] == "=="):
+        return strip(e["L"])
+    return None
+
 def check(run, prog, tier):
     run.rule("C09-a", "backend(): no raising call before setjmp arms the loop context; the statements re-executed after every recovery are only restore_context or once-guarded start-up steps", 3)
     run.rule("C09-b", "every subscript of the global connection table all_users is guarded by a non-NULL test, an index bound by max_users (0 while NULL), an existing connection record, or a reviewed table entry", 30)
@@ -81,9 +92,8 @@ def check(run, prog, tier):
         # once-guard: the call is guarded by `!flag` where flag is a local set to a non-zero constant in the same guarded block before the call
         once = False
         for c, truth, B in cfgq.guards(be, b.id):
-            e, t = normalize_cond(c, truth)
-            e = strip(e)
-            if e.get("k") == "Ref" and e.get("d") == "local" and t is False:
+            e = _flag_clear(c, truth)
+            if e is not None and e.get("d") == "local":
                 for b2, i2, n2 in be.nodes():
                     if n2.get("k") == "Asg" and strip(n2["L"]).get("id") == e.get("id") and const_val(n2["R"]) not in (None, 0) \
                             and be.point_dominates((b2.id, i2), (b.id, i)) and be.dominates(B, b2.id):
